@@ -20,7 +20,8 @@ import time
 
 REPO = os.environ.get("VERIF_REPO", "/repo")
 SRC = os.path.join(os.path.realpath(os.path.join(REPO, "src")), "celpy") + os.sep
-WAIT_S = float(os.environ.get("VERIF_C16_WAIT", "4"))
+WAIT_S = float(os.environ.get("VERIF_C16_WAIT", "30"))     # absolute cap on one gate wait
+STALL_S = float(os.environ.get("VERIF_C16_STALL", "1.5"))    # ... and: no thread that is not itself gated moved for this long
 
 
 def celpy_mod():
@@ -230,6 +231,7 @@ class Gates:
         self.broken_at = None
         self.order = []
         self.threads = {}
+        self.waiting = set()
 
     def _advance(self):
         while self.ptr < len(self.sched) and (self.status[self.ptr] in ("done", "skipped") or
@@ -259,16 +261,25 @@ class Gates:
             i = q[hit]
             del q[:hit + 1]
             self._advance()
-            end = time.time() + WAIT_S
+            end, stall, last = time.time() + WAIT_S, time.time(), None
+            self.waiting.add(t)
             while self.ptr != i and self.broken_at is None:
-                left = end - time.time()
-                if left <= 0:
+                self.cv.wait(0.05)
+                now, snap = time.time(), self._running()
+                if snap != last:
+                    last, stall = snap, now
+                if now > end or now - stall > STALL_S:
                     self.broken_at = self.ptr  # cannot be forced (e.g. a lock): open every gate, report inconclusive
                     self.cv.notify_all()
-                    break
-                self.cv.wait(left)
+            self.waiting.discard(t)
             self.status[i], self.inflight[t] = "inflight", i
             self.order.append(i)
+
+    def _running(self):
+        """where every workload thread that is not held at a gate currently is (thread, frame, instruction)"""
+        frames = sys._current_frames()
+        return [(t, id(frames.get(ident)), getattr(frames.get(ident), "f_lasti", -1))
+                for ident, t in sorted(self.threads.items()) if t not in self.waiting and not self.finished[t]]
 
     def end(self, t):
         with self.cv:
@@ -296,7 +307,8 @@ def run_forced(runner, programs, bindings, schedule, evals=1, state=None):
     def body(t):
         fn = workload(runner, programs[t], bindings[t], evals)
         start.wait()
-        g.threads[threading.get_ident()] = t
+        with g.cv:
+            g.threads[threading.get_ident()] = t
         try:
             res[t] = fn()
         finally:
